@@ -1150,7 +1150,9 @@ impl Steer {
             FTree::Un(op, x) => FTree::Un(*op, Box::new(self.pre(x, in_arg, in_arg, in_at, n))),
             FTree::Spill(x) => FTree::Spill(Box::new(self.pre(x, in_arg, in_arg, in_at, n))),
             FTree::At(x) => {
-                if self.excel_at && (below_op || in_at) {
+                // `@x%` is read as `(@x)%`: the `@` ends up below the operator
+                let postfix = in_arg && matches!(x.as_ref(), FTree::Un(UnOp::Percent, _));
+                if self.excel_at && (below_op || in_at || postfix) {
                     hit();
                     self.pre(x, in_arg, below_op, in_at, n)
                 } else {
